@@ -253,4 +253,8 @@ def target_glue():
 
 
 def targets():
-    return [target_series(), target_parallel(), target_circuit_init(), target_glue()]
+    # shared with C03/C04: every connection a parse returns is a new object of that parse (a sub-circuit keyword such as `short`
+    # must not hand out one shared Series), otherwise a parsed circuit's impedance depends on what was done to earlier parses
+    from . import c04
+    shared = [t for t in c04.targets() if "Parser.subcircuit" in t[0]]
+    return [target_series(), target_parallel(), target_circuit_init(), target_glue()] + shared
